@@ -39,7 +39,7 @@ class ValidationError(StathamError):
     @classmethod
     def from_validator(cls, property_, value, message) -> "ValidationError":
         value_string = (
-            f"{repr(property_.parent)}.{property_.name} = {_display(value)}`"
+            f"{_display(property_.parent)}.{property_.name} = {_display(value)}`"
             if property_.name != "<unbound>"
             else _display(value)
         )
